@@ -786,7 +786,15 @@ impl Server {
     /// function of the message id, so no choice is drawn).
     fn check_c07_error_shapes(&mut self, req: &CoapRequest<Ep>, stats: &mut Stats) {
         let mid = req.message.header.message_id as usize;
-        let shapes: [fn() -> HandlingError; 11] = [
+        let shapes: [fn() -> HandlingError; 19] = [
+            || HandlingError::with_code(ResponseType::BadOption, "bad option"),
+            || HandlingError::with_code(ResponseType::Unauthorized, "no"),
+            || HandlingError::with_code(ResponseType::Forbidden, "forbidden"),
+            || HandlingError::with_code(ResponseType::NotAcceptable, "n/a"),
+            || HandlingError::with_code(ResponseType::PreconditionFailed, "precondition"),
+            || HandlingError::with_code(ResponseType::UnsupportedContentFormat, "format"),
+            || HandlingError::with_code(ResponseType::NotImplemented, "later"),
+            || HandlingError::with_code(ResponseType::GatewayTimeout, "timeout"),
             // codes that are not errors are codes all the same
             || HandlingError::with_code(ResponseType::Content, "not an error"),
             || HandlingError::with_code(ResponseType::Created, ""),
@@ -822,6 +830,27 @@ impl Server {
             // the reply was already taken out and sent
             if mid % 8 == 6 {
                 r.response = None;
+            }
+            // what is in the reply's payload before the call must not leak
+            // into the error reply: with two different earlier payloads the
+            // results are either both untouched or equal
+            if mid % 4 == 1 && r.response.is_some() {
+                let mut ra = r.clone();
+                let mut rb = r.clone();
+                let pa = b"partial".to_vec();
+                let pb = vec![b'Z'; 40];
+                ra.response.as_mut().unwrap().message.payload = pa.clone();
+                rb.response.as_mut().unwrap().message.payload = pb.clone();
+                let (ea, eb) = (e.clone(), e.clone());
+                if let (Ok(_), Ok(_)) = (guard(|| ra.apply_from_error(ea)), guard(|| rb.apply_from_error(eb))) {
+                    if let (Some(xa), Some(xb)) = (ra.response.as_ref(), rb.response.as_ref()) {
+                        let (xa, xb) = (&xa.message.payload, &xb.message.payload);
+                        let kept = *xa == pa && *xb == pb;
+                        if !kept && xa != xb {
+                            self.violations.push(Violation::new("C07", "error-preserves", format!("the payload the reply had before apply_from_error shows in the error reply: {:?} after \"partial\", {:?} after 40 x 'Z'", String::from_utf8_lossy(xa), String::from_utf8_lossy(xb))).with_sig("stale-payload"));
+                        }
+                    }
+                }
             }
             let before = r.response.clone();
             let e2 = e.clone();
